@@ -1,16 +1,16 @@
 //@ unit scan_rawattr_ig_w
 //@ props C02 C03 C01
 //@ kind W
-//@ def quick NIN=6
-//@ def thorough NIN=9
-//@ cbmc all --unwind 12 --unwinding-assertions
+//@ def quick NIN=5 NERR=5
+//@ def thorough NIN=7 NERR=7
+//@ cbmc quick --unwind 7 --unwinding-assertions
+//@ cbmc thorough --unwind 9 --unwinding-assertions
 //@ timeout quick=600 thorough=1800
 //@ entry h_rawAttrScan
 //@ note W: complete for every TOKEN sequence of length <= NIN after the element name (tokens: name, malformed name, '=', quoted value, unterminated quote, white space, '/', '>', '<', other character, end of input), every initial size of the pair vector, colon list capacity 1 or 2 (so that the growth path is taken)
 //@ note token-level stubs (contracts/scan_rawattr_harness.inc): getQName and basicAttrValueScan consume one token (their own syntax is proved in rdr_getQName / scan_attvalue_basic_*); scanEq and resizeRawAttrColonList are the real functions; KVStringPair / RefVectorOf are recording sinks; emitError message arguments are not modelled
 #define VERIF_DEFINE_GHOSTS
 #include "verif_prelude.h"
-#include <stdlib.h>
 //@ include scan_rawattr_harness.inc
 
 /*@extract src/xercesc/internal/XMLScanner.cpp XMLScanner::scanEq
